@@ -913,7 +913,11 @@ func (t *Term) body() string {
 	case oU2F:
 		return fmt.Sprintf("(fp.to_ieee_bv ((_ to_fp_unsigned 11 53) RNE %s))", t.a.ref())
 	case oF2I:
-		return fmt.Sprintf("((_ fp.to_sbv 64) RTZ %s)", fp(t.a))
+		// Go on amd64 (CVTTSD2SQ): NaN and out-of-range values give MinInt64
+		f := fp(t.a)
+		big := "((_ to_fp 11 53) #x43e0000000000000)" // 2^63
+		neg := "((_ to_fp 11 53) #xc3e0000000000000)" // -2^63
+		return fmt.Sprintf("(ite (or (fp.isNaN %s) (fp.geq %s %s) (fp.lt %s %s)) #x8000000000000000 ((_ fp.to_sbv 64) RTZ %s))", f, f, big, f, neg, f)
 	case oAtom:
 		panic("atom term sent to solver")
 	}
